@@ -58,3 +58,16 @@ func (pdCoord *PDCoordinator) VerifBalanceAddOnce(ns string, pid int) error {
 	_, err = pdCoord.dpm.addNodeToNamespaceAndWaitReady(closed, nsInfo, getNodeNameList(nodes))
 	return err
 }
+
+// VerifRemoveFromNode is the operator / balancer request "remove this namespace partition from that
+// node" (RemoveNamespaceFromNode without the leadership test of the API wrapper).
+func (pdCoord *PDCoordinator) VerifRemoveFromNode(ns string, pid int, nid string) error {
+	nsInfo, err := pdCoord.register.GetNamespacePartInfo(ns, pid)
+	if err != nil {
+		return err
+	}
+	if cerr := pdCoord.removeNamespaceFromNode(nsInfo, nid); cerr != nil {
+		return cerr.ToErrorType()
+	}
+	return nil
+}
